@@ -3,6 +3,7 @@ package path
 import (
 	"errors"
 	"fmt"
+	"strings"
 )
 
 func build(source string, parsed any) PropertyPath {
@@ -58,7 +59,9 @@ func ParsePath(path string) (PropertyPath, error) {
 		return nil, errors.New(fmt.Sprintf("invalid property path '%s': %s", path, err.Error()))
 	}
 
-	propertyPath := build(path, parsed)
+	// the source text is quoted in comments and traces of the generated code: keep it on one line
+	source := strings.NewReplacer("\r\n", " ", "\n", " ", "\r", " ", "\t", " ").Replace(path)
+	propertyPath := build(source, parsed)
 
 	return propertyPath, nil
 }
